@@ -466,6 +466,98 @@ pub fn plan_for(property: &str, seed: u64) -> Plan {
             plan.time_cap_us *= 20;
             plan
         }
+        "C06" => {
+            if r.chance(2, 3) {
+                // only additive faults: every genuine datagram still arrives, so the connection
+                // must survive and complete whatever else is injected
+                let p = Profile { fault_rates_permille: &[0], max_stream_bytes: 100_000, ..Default::default() };
+                let mut plan = base_plan(seed, property, "c06.forge", &mut r, &p);
+                plan.faults.clear();
+                let rate = r.pick(&[20u32, 50, 150, 400]);
+                for _ in 0..r.range(1, 4) {
+                    let action = match r.below(7) {
+                        0 => Action::Corrupt {
+                            bits: (0..r.range(1, 4)).map(|_| r.below(1 << 16) as u32).collect(),
+                            also_original: true,
+                        },
+                        1 => Action::Truncate { n: r.range(0, 1300) as u32, from_end: r.chance(1, 2), also_original: true },
+                        2 => Action::Extend { n: r.range(1, 50) as u32, also_original: true },
+                        3 => Action::Splice { at: r.range(1, 1200) as u32, also_original: true },
+                        4 => Action::Replay { after_us: r.pick(&[0u64, 1_000, 500_000, 5_000_000]), from_other_addr: r.chance(1, 3) },
+                        5 => Action::Dup { k: r.range(1, 3) as u8, extra_us: r.pick(&[0u64, 10, 1_000, 100_000]) },
+                        _ => Action::Corrupt { bits: vec![r.below(64) as u32], also_original: true },
+                    };
+                    plan.faults.push(Fault {
+                        when: When::Window { dir: None, from_us: 0, to_us: u64::MAX, permille: rate, key: r.next() },
+                        action,
+                    });
+                }
+                // unattributable garbage, also spoofed from the genuine peer address
+                for _ in 0..r.below(12) {
+                    plan.attacker.push(AttackerDatagram {
+                        at_us: r.below(3_000_000),
+                        to_server: r.chance(2, 3),
+                        kind: r.pick(&[AttackKind::Garbage, AttackKind::ShortHeaderUnknownCid, AttackKind::LongHeaderUnknownVersion, AttackKind::InitialVersionZero]),
+                        len: r.range(1, 1500) as u32,
+                        key: r.next(),
+                    });
+                }
+                plan.cfg.path_mtu = plan.cfg.path_mtu.max(1500);
+                for c in plan.conns.iter_mut() {
+                    c.keep_alive = false;
+                }
+                plan
+            } else {
+                let p = Profile { max_stream_bytes: 100_000, ..Default::default() };
+                let mut plan = base_plan(seed, property, "c06.mixed", &mut r, &p);
+                let end = r.pick(&[2_000_000u64, 10_000_000]);
+                plan.faults_end_us = Some(end);
+                plan.time_cap_us += end;
+                plan
+            }
+        }
+        "C08" => {
+            let p = Profile {
+                max_stream_bytes: 200_000,
+                corrupting: false,
+                fault_rates_permille: &[0, 5, 20, 50, 150],
+                ..Default::default()
+            };
+            let mut plan = base_plan(seed, property, "c08.acks", &mut r, &p);
+            // losing ACK-only datagrams and long reordering are what stresses this property
+            if r.chance(1, 2) {
+                plan.faults.push(Fault {
+                    when: When::Window {
+                        dir: Some(if r.chance(1, 2) { Dir::C2S } else { Dir::S2C }),
+                        from_us: r.below(1_000_000),
+                        to_us: r.pick(&[500_000u64, 2_000_000, 10_000_000]),
+                        permille: r.pick(&[300u32, 700, 1000]),
+                        key: r.next(),
+                    },
+                    action: Action::Drop,
+                });
+            }
+            let end = r.pick(&[2_000_000u64, 12_000_000]);
+            plan.faults_end_us = Some(end);
+            plan.time_cap_us += end;
+            plan
+        }
+        "C12" => {
+            let p = Profile {
+                allow_reset: true,
+                allow_stop: true,
+                hard_close: true,
+                max_stream_bytes: 150_000,
+                corrupting: false,
+                fault_rates_permille: &[0, 20, 50, 150, 300],
+                ..Default::default()
+            };
+            let mut plan = base_plan(seed, property, "c12.consistency", &mut r, &p);
+            let end = r.pick(&[2_000_000u64, 12_000_000]);
+            plan.faults_end_us = Some(end);
+            plan.time_cap_us += end;
+            plan
+        }
         _ => {
             let p = Profile::default();
             base_plan(seed, property, "generic", &mut r, &p)
